@@ -550,3 +550,20 @@ def _sem(node, env, filevar, at=None, depth=0):
             a, b = b, a
         return f"MASK({a}=={b})"
     return norm(node)
+
+
+def cli_wiring(ctx, prefix):
+    """E7: every option of the `taste` command reaches the Taster parameter of the same meaning with the right
+    polarity — the defaults of the command line are the defaults of the API ("default validation")"""
+    from vk import wiring
+    prog = ctx.prog
+    cli = prog.func("amr_kitchen/taste/cli.py", "main", prefix)
+    opts = wiring.cli_options(cli)
+    call, b = wiring.call_bindings(prog, cli, lambda t: t == "Taster")
+    if call is None:
+        raise AnalysisError(f"{prefix}.WIRING", cli.site, "Taster(...) call not found")
+    for param, dest, pol in (("limit_level", "limit_level", None), ("binary_headers", "no_bin_headers", "store_false"),
+                             ("binary_shape", "no_bin_shape", "store_false"), ("binary_data", "bin_data", "store_true"),
+                             ("boxes_coordinates", "box_coords", "store_true"), ("nofail", "nofail", "store_true"),
+                             ("plt_file", "plotfile", None)):
+        wiring.rule_wired(ctx, f"{prefix}.WIRING", cli, b, param, dest, opts, pol)
